@@ -87,6 +87,19 @@ func (pe *peval) run(fn *ssa.Function, args []aval, depth int) []poutcome {
 				}
 			case *ssa.ChangeType:
 				fr.env[x] = val(x.X)
+			case *ssa.UnOp:
+				// an entry of a package-level table of constants at a known subscript (encodingOffsets[e])
+				if x.Op == token.MUL {
+					if ia, ok := x.X.(*ssa.IndexAddr); ok {
+						if g, ok := ia.X.(*ssa.Global); ok {
+							if idx := val(ia.Index); idx.isConst() {
+								if k, ok := globalTableEntry(g, idx.k); ok {
+									fr.env[x] = aval{known: true, k: k}
+								}
+							}
+						}
+					}
+				}
 			case *ssa.BinOp:
 				a, c := val(x.X), val(x.Y)
 				switch x.Op {
@@ -281,4 +294,46 @@ func cmpConst(a int64, op token.Token, b int64) bool {
 		return a >= b
 	}
 	return false
+}
+
+// globalTableEntry: the constant that the package initialiser stores at g[k] (a table written as a composite
+// literal of constants); entries the literal leaves out are zero.
+func globalTableEntry(g *ssa.Global, k int64) (int64, bool) {
+	if g.Pkg == nil {
+		return 0, false
+	}
+	init := g.Pkg.Func("init")
+	if init == nil {
+		return 0, false
+	}
+	found, stored := false, false
+	var val int64
+	for _, b := range init.Blocks {
+		for _, ins := range b.Instrs {
+			st, ok := ins.(*ssa.Store)
+			if !ok {
+				continue
+			}
+			ia, ok := st.Addr.(*ssa.IndexAddr)
+			if !ok || ia.X != ssa.Value(g) {
+				if st.Addr == ssa.Value(g) {
+					return 0, false // assigned as a whole from a computed value
+				}
+				continue
+			}
+			stored = true
+			i, okI := constIntVal(ia.Index)
+			v, okV := constIntVal(st.Val)
+			if !okI || !okV {
+				return 0, false
+			}
+			if i == k {
+				val, found = v, true
+			}
+		}
+	}
+	if !stored {
+		return 0, false
+	}
+	return val, true || found
 }
